@@ -25,4 +25,15 @@ structure StrictTotal {α : Type} (lt : α → α → Bool) : Prop where
 /-- strictly increasing -/
 def Sorted {α : Type} (lt : α → α → Bool) (l : List α) : Prop := l.Pairwise (fun a b => lt a b = true)
 
+/-- `strcmp( a, b ) < 0` on NUL-free byte strings: the first differing byte decides (compared as unsigned char), a proper prefix
+    is smaller -/
+def strcmpLt : List UInt8 → List UInt8 → Bool
+  | [], [] => false
+  | [], _ :: _ => true
+  | _ :: _, [] => false
+  | a :: r, b :: s => if a < b then true else if b < a then false else strcmpLt r s
+
+/-- the same comparison on identifiers (`String`s) through their UTF-8 bytes, which is what `strcmp` sees -/
+def nameStrcmpLt (a b : String) : Bool := strcmpLt a.toByteArray.data.toList b.toByteArray.data.toList
+
 end StepModel.AlphaOrder
